@@ -242,12 +242,17 @@ def load_costs():
     return {}
 
 
-def record_costs(results, harnesses):
+def record_costs(results, harnesses, tier="quick"):
     costs = load_costs()
     tmo = {h.hid: h.timeout for h in harnesses}
     for r in results:
         if r["status"] in ("CONFIRMED", "REFUTED", "UNKNOWN"):
-            costs[r["id"]] = {"status": r["status"], "cpu": r.get("cpu_s", 0), "timeout": tmo.get(r["id"], 0)}
+            old = costs.get(r["id"])
+            if tier == "quick" and old and old.get("tier") == "thorough" and old.get("status") == "CONFIRMED" and r["status"] == "UNKNOWN":
+                # keep the thorough verdict, remember that it does not fit the quick budget
+                old["cpu"] = max(old.get("cpu", 0), 91)
+                continue
+            costs[r["id"]] = {"status": r["status"], "cpu": r.get("cpu_s", 0), "timeout": tmo.get(r["id"], 0), "tier": tier}
     with open(COSTS, "w") as f:
         json.dump(costs, f, indent=0, sort_keys=True)
 
@@ -290,6 +295,17 @@ def run_check(prop, tier, only=None, keep=False, extra=None):
             else:
                 kept.append(h)
         harnesses = kept
+    out_of_reach = []
+    if tier == "thorough" and not only and os.environ.get("VERIF_RETRY_UNKNOWN") != "1":
+        kept = []
+        for h in harnesses:
+            c = costs.get(h.hid)
+            # undecided on the reference tree even with the thorough budget: stated as out of reach instead of burning the budget again
+            if c and c.get("status") == "UNKNOWN" and c.get("timeout", 0) >= h.timeout and c.get("tier") == "thorough":
+                out_of_reach.append(h.hid)
+            else:
+                kept.append(h)
+        harnesses = kept
     for h in harnesses:
         c = costs.get(h.hid)
         if c and c.get("status") == "CONFIRMED":
@@ -325,7 +341,7 @@ def run_check(prop, tier, only=None, keep=False, extra=None):
             print("workdir kept:", workdir)
     results.sort(key=lambda r: ids.index(r["id"]))
     if os.environ.get("VERIF_RECORD_COSTS") == "1":
-        record_costs(results, harnesses)
+        record_costs(results, harnesses, tier)
 
     known = load_known(prop)
     violations = []
@@ -405,6 +421,7 @@ def run_check(prop, tier, only=None, keep=False, extra=None):
             "repo_functions_encoded": funcs,
             "inconclusive": [r["id"] for r in results if r["status"] not in ("CONFIRMED", "REFUTED")],
             "deferred_to_thorough": deferred,
+            "out_of_reach_at_thorough_budget": out_of_reach,
             "kernel_queries": pre.get("samples", []),
             "known_findings_hit": [{"harness": r["id"], "what": k["what"]} for k, r in known_hits],
         },
